@@ -24,7 +24,8 @@ def make_jobs(prop, r, n, quick):
         if prop == "C15":
             ops = [o for o in ops if o["op"] != "Call" or r.random() < 0.5]
         if prop == "C16" and r.random() < 0.5:
-            ops.append({"op": "Prevent", "f": r.randint(1, nfn), "a": r.randint(0, 2), "c": r.choice(progs.CTXS)})
+            ops.append({"op": "Prevent", "f": r.randint(1, nfn), "a": r.randint(0, 2), "c": r.choice(progs.CTXS),
+                        "via": r.choice(["root", "nested"])})      # nested: the prevented call is made from inside a memento function
         cfg = dict(BACKENDS[i % len(BACKENDS)])
         jobs.append({"prog": p, "cfg": cfg, "ops": ops, "amax": 2})
     return jobs
